@@ -81,8 +81,14 @@ def check(run):
     run.log("replicated retained store: %d histories, each pushed whole into a fresh node, %d rejected" % (len(rs), len(rrej)))
     validated += rval
     tstates += rts
+    # a dump is taken while the store is in use: it must be the store at one moment (linearizable snapshot), and load
+    from checks import c20
+    conc = c20.store_histories(run, "C19", v, 60 if not thorough else 900)
+    validated += conc["validated"]
+    tstates += conc["trace_spec_states"]
     rc = v.finish()
     vlib.write_evidence(run, {
+        "under_concurrent_use": conc,
         "traces_validated_against_impl": validated,
         "evaluations": len(scns),
         "distinct_nontrivial": len(scns),
@@ -103,6 +109,18 @@ def check(run):
 
 def replay(run, path):
     rp = json.load(open(path))
+    if rp.get("kind") == "history":
+        tp = os.path.join(run.scratch, "h.ndjson")
+        with open(tp, "w") as f:
+            f.write(json.dumps(rp["history"]) + "\n")
+        ok, line, detail, _ = run.validate("Lin", "Lin.cfg", tp)
+        print("replay: recorded history is %s" % ("linearizable" if ok else "NOT linearizable"))
+        if not ok:
+            print("VIOLATION property=C19 replay=%s" % path)
+        return 0 if ok else 1
+    if rp.get("kind") in ("race", "fatal"):
+        print("replay: data races depend on the schedule; re-running the check")
+        return check(run)
     if rp.get("kind") == "crdt" or "map" in rp.get("scenario", {}):
         return crdtlib.replay(run, "C19", path)
     spath = os.path.join(run.scratch, "scenarios.ndjson")
